@@ -144,7 +144,7 @@ theorem valEnd_at {q : Nat} {g : List Char} (hg : Gap inp q g)
     exact valEnd_ws_ne (hgl ▸ hg.ws) (by simp)
 
 theorem valueT (τ : Trivia) (hτ : ∀ q, Ws (τ q)) (v : Value) (hwf : WFV v) {sep : Bool} {p : Nat} {bad : Char → Prop}
-    (hbad : ∀ d, d = '.' ∨ d = '"' → bad d) (h : HasAt inp p (tk τ sep p (renderV τ p v)))
+    (hbad : sep = false → ∀ d, d = '.' ∨ d = '"' → bad d) (h : HasAt inp p (tk τ sep p (renderV τ p v)))
     (hn : Nxt inp bad sep (p + (tk τ sep p (renderV τ p v)).length)) :
     RunsK (B (tk τ sep p (renderV τ p v)).length + 1) (.call R.Value) (At inp p)
       (At inp (p + (tk τ sep p (renderV τ p v)).length)) [valuePair τ p v] := by
@@ -153,10 +153,14 @@ theorem valueT (τ : Trivia) (hτ : ∀ q, Ws (τ q)) (v : Value) (hwf : WFV v) 
     refine valEnd_at hg fun hnil => ?_
     have e : inp.drop (p + (renderV τ p v).length) = inp.drop (p + (tk τ sep p (renderV τ p v)).length) := by
       rw [tk_length, hnil]; simp
+    have hsep : sep = false := by
+      cases sep with
+      | false => rfl
+      | true => exact absurd hnil gapS_ne_nil
     intro d r he hd
     rcases hd with hd | hd
     · exact hglue d r he hd
-    · rw [e] at he; exact hn.ok d r he (hbad d hd)
+    · rw [e] at he; exact hn.ok d r he (hbad hsep d hd)
   refine ⟨At inp (p + (renderV τ p v).length), ?_, ?_⟩
   · have := value_runs τ hτ v.size v (Nat.le_refl _) hwf p _ hend
     simp only [At]
@@ -185,12 +189,13 @@ theorem argsT (τ : Trivia) (hτ : ∀ q, Ws (τ q)) (args : List Arg) (hne : ar
 theorem args_fails {p : Nat} (h : HeadNot (· = '(') (inp.drop p)) :
     Fails gList 4 true (.call R.Arguments) .nonAtomic (At inp p) := fails_call (arguments_fails h)
 
-theorem stringT {τ : Trivia} (hτ : ∀ q, Ws (τ q)) (s : List Char) {sep : Bool} {p : Nat} {bad : Char → Prop}
-    (hbad : bad '"') (h : HasAt inp p (tk τ sep p (quoted s))) (hn : Nxt inp bad sep (p + (tk τ sep p (quoted s)).length)) :
+theorem stringT {τ : Trivia} (hτ : ∀ q, Ws (τ q)) (s : List Char) {sep : Bool} {p : Nat}
+    (h : HasAt inp p (tk τ sep p (quoted s))) (ht : Tok (At inp (p + (tk τ sep p (quoted s)).length)))
+    (hq : HeadNot (· = '"') (inp.drop (p + (tk τ sep p (quoted s)).length))) :
     RunsK (B (tk τ sep p (quoted s)).length) (.call R.StringValue) (At inp p)
       (At inp (p + (tk τ sep p (quoted s)).length)) [stringPair s p] := by
   have hg : Gap inp (p + (quoted s).length) (gapS sep (τ (p + (quoted s).length))) :=
-    ⟨h.right, ws_gapS (hτ _), by have := hn.tok; rw [tk_length, ← Nat.add_assoc] at this; exact this⟩
+    ⟨h.right, ws_gapS (hτ _), by have := ht; rw [tk_length, ← Nat.add_assoc] at this; exact this⟩
   have hend : StrEnd s (inp.drop (p + (quoted s).length)) := by
     intro _
     cases hgl : gapS sep (τ (p + (quoted s).length)) with
@@ -198,7 +203,7 @@ theorem stringT {τ : Trivia} (hτ : ∀ q, Ws (τ q)) (s : List Char) {sep : Bo
       have e : inp.drop (p + (quoted s).length) = inp.drop (p + (tk τ sep p (quoted s)).length) := by
         rw [tk_length, hgl]; simp
       rw [e]
-      exact headNot_mono (fun d hd => hd ▸ hbad) hn.ok
+      exact hq
     | cons d r =>
       rw [hg.has.drop, hgl]
       refine headNot_cons ?_ _
